@@ -350,6 +350,10 @@ pub struct Scenario {
     /// real files to create in the scratch directory, e.g. a `--files-from` list
     #[serde(default)]
     pub real_files: Vec<RealFile>,
+    /// paths (among `files`) whose placeholder in the scratch tree is a symbolic link to a
+    /// regular placeholder outside the walked directories (a shared unit linked into a project)
+    #[serde(default)]
+    pub symlinks: Vec<String>,
     /// bytes to put on the process's REAL standard input as a pipe whose write end is already
     /// closed (e.g. a `--files-from /dev/stdin` list arriving through a pipe: it can be read
     /// exactly once); None = /dev/null
